@@ -14,17 +14,18 @@ type T = LTerm<DefaultUser, DefaultEngine<DefaultUser>>;
 type TU = DefaultUser;
 type TE = DefaultEngine<DefaultUser>;
 #[derive(Debug)]
-pub struct Succ { u: T, v: T }
+pub struct Succ { u: T, v: T, mode: usize }
 impl Solve<TU, TE> for Succ {
     fn solve(&self, _solver: &Solver<TU, TE>, state: State<TU, TE>) -> Stream<TU, TE> {
-        match self.u.get_number() {
+        let n = if self.mode == 0 { self.u.get_number() } else { self.u.head().and_then(|h| h.get_number()) };
+        match n {
             Some(n) => match state.unify(&LTerm::from(n + 1), &self.v) { Ok(st) => Stream::unit(Box::new(st)), Err(_) => Stream::empty() },
             None => Stream::empty(),
         }
     }
 }
-pub fn succ(u: T, v: T) -> Goal<TU, TE> { Goal::dynamic(Rc::new(Succ { u, v })) }
-pub fn succ_head(u: T, v: T) -> Goal<TU, TE> { match u.head() { Some(h) => Goal::dynamic(Rc::new(Succ { u: h.clone(), v })), None => Goal::Fail } }
+pub fn succ(u: T, v: T) -> Goal<TU, TE> { Goal::dynamic(Rc::new(Succ { u, v, mode: 0 })) }
+pub fn succ_head(u: T, v: T) -> Goal<TU, TE> { Goal::dynamic(Rc::new(Succ { u, v, mode: 1 })) }
 
 #[test]
 fn replay() {
